@@ -25,7 +25,7 @@ func opProduct(w *World, st *Step) execResult {
 	var err error
 	var val interface{}
 	hasVal := false
-	cA, cB := append([]int{}, axA...), append([]int{}, axB...)
+	cA, cB := w.own("TensorMul axesA", axA), w.own("TensorMul axesB", axB)
 	switch kind {
 	case "MatMul":
 		if w.useMethod() {
